@@ -200,6 +200,22 @@ pub fn preps(thorough: bool) -> Vec<Prep> {
             }
         }
     }
+    // products that equal their reactants (an operator that changed nothing, or whose change the boundary
+    // repair undid): still a reaction, still exactly the two populations consumed
+    for &buffer in &BUF {
+        let pop: Vec<TInd> = vec![(0, 1.0), (1, 3.0), (2, 0.5)];
+        let ke = vec![0.5, 2.0, 1.25];
+        for r in 0..3usize {
+            for lr in [0.0, 0.5] {
+                v.push(Prep { reaction: 0, pop: pop.clone(), ke: ke.clone(), buffer, reactants: vec![r], products: vec![pop[r]], lr });
+            }
+            v.push(Prep { reaction: 1, pop: pop.clone(), ke: ke.clone(), buffer, reactants: vec![r], products: vec![pop[r], pop[r]], lr: 0.0 });
+        }
+        for (a, b) in [(0usize, 1usize), (2, 0)] {
+            v.push(Prep { reaction: 2, pop: pop.clone(), ke: ke.clone(), buffer, reactants: vec![a, b], products: vec![pop[a], pop[b]], lr: 0.0 });
+            v.push(Prep { reaction: 3, pop: pop.clone(), ke: ke.clone(), buffer, reactants: vec![a, b], products: vec![pop[a]], lr: 0.0 });
+        }
+    }
     // individuals with the same encoding but different objective values (a noisy objective, or an
     // individual re-evaluated under another evaluator) are different molecules
     for &buffer in &BUF {
